@@ -74,7 +74,7 @@ MUTANTS = [
     ("C12", "xz-key", "typhon/files/utils.py", "    _known_compressions['xz'] = lzma.LZMAFile", "    _known_compressions['.xz'] = lzma.LZMAFile"),
     ("C12", "bz2-as-plain-copy", "typhon/files/utils.py", "                elif fmt == \"bz2\" or fmt == \"xz\":\n                    with compfile(target, 'wb') as f_out:", "                elif fmt == \"bz2\" or fmt == \"xz\":\n                    with open(target, 'wb') as f_out:"),
     ("C12", "swallow-compress-error", "typhon/files/utils.py", "    except Exception as e:\n        raise e\n    else:\n        if not keep:", "    except Exception as e:\n        pass\n    else:\n        if not keep:"),
-    ("C15", "write-directly", "typhon/files/fileset.py", "            with open(filename+\".backup\", 'w') as file:", "            with open(filename, 'w') as file:"),
+    ("C15", "write-directly", "typhon/files/fileset.py", ["            with open(filename+\".backup\", 'w') as file:", "            shutil.move(filename+\".backup\", filename)"], ["            with open(filename, 'w') as file:", "            pass"]),
     ("C15", "drop-microseconds", "typhon/files/handlers/common.py", 'time.strftime("-%m-%dT%H:%M:%S.%f")', 'time.strftime("-%m-%dT%H:%M:%S.000000")'),
     ("C15", "load-reraises", "typhon/files/fileset.py", "            except Exception as err:\n                warnings.warn(\n                    \"Could not load the file information from cache file \"", "            except ValueError as err:\n                warnings.warn(\n                    \"Could not load the file information from cache file \""),
     ("C15", "year-unpadded", "typhon/files/handlers/common.py", 'f"{time.year:04d}"', 'f"{time.year:d}"'),
@@ -95,13 +95,18 @@ def run_one(m):
     import tempfile
     pid, label, f, old, new = m
     src = open(os.path.join(REPO, f)).read()
-    if src.count(old) != 1:
-        return (m, "SKIP (pattern occurs %d times)" % src.count(old), "", False)
+    edits = list(zip(old, new)) if isinstance(old, (list, tuple)) else [(old, new)]
+    for o, _ in edits:
+        if src.count(o) != 1:
+            return (m, "SKIP (pattern occurs %d times)" % src.count(o), "", False)
+    mutated = src
+    for o, n_ in edits:
+        mutated = mutated.replace(o, n_)
     scratch = tempfile.mkdtemp(prefix="verif-mut-")
     try:
         dst = os.path.join(scratch, "repo")
         shutil.copytree(REPO, dst, ignore=shutil.ignore_patterns(".git", "__pycache__", "doc"))
-        open(os.path.join(dst, f), "w").write(src.replace(old, new))
+        open(os.path.join(dst, f), "w").write(mutated)
         env = dict(os.environ, VERIF_NO_EVIDENCE="1", VERIF_REPO=dst, VERIF_REPLAY_DIR=os.path.join(scratch, "replays"))
         r = subprocess.run([os.path.join(VERIF, "bin/check"), pid, "--tier", "quick"], env=env, text=True,
                            stdout=subprocess.PIPE, stderr=subprocess.STDOUT)
